@@ -53,18 +53,21 @@ func TestMain(m *testing.M) {
 }
 
 type e2eCase struct {
-	Doc      dDoc     `json:"doc"`
-	State    sysState `json:"state"`
-	Sig      string   `json:"signal"`    // TERM INT HUP
-	Solicit  bool     `json:"solicit"`   // a valid and an invalid (hop limit 64) RS arrive on every advertising interface
-	WaitMS   int      `json:"wait_ms"`   // time between readiness and the signal
-	Missing  []int    `json:"missing"`   // indices (into the expanded interface list) of interfaces that do not exist
-	PortBusy bool     `json:"port_busy"` // the debug address is already in use: the HTTP task fails
-	Prom     bool     `json:"prometheus"`
-	Restart  bool     `json:"restart"`        // run the same configuration twice (the epoch is the start of each process)
-	Early    bool     `json:"early"`          // the signal arrives while main() is still between signal.Notify and Serve
-	FailIdx  int      `json:"fail_interface"` // >0: the (FailIdx-1)-th advertising/monitoring interface hits a fatal receive error FailMS after it came up; no signal is sent
-	FailMS   int      `json:"fail_after_ms"`
+	Doc             dDoc     `json:"doc"`
+	State           sysState `json:"state"`
+	Sig             string   `json:"signal"`    // TERM INT HUP
+	Solicit         bool     `json:"solicit"`   // a valid and an invalid (hop limit 64) RS arrive on every advertising interface
+	WaitMS          int      `json:"wait_ms"`   // time between readiness and the signal
+	Missing         []int    `json:"missing"`   // indices (into the expanded interface list) of interfaces that do not exist
+	PortBusy        bool     `json:"port_busy"` // the debug address is already in use: the HTTP task fails
+	Prom            bool     `json:"prometheus"`
+	Restart         bool     `json:"restart"`        // run the same configuration twice (the epoch is the start of each process)
+	Early           bool     `json:"early"`          // the signal arrives while main() is still between signal.Notify and Serve
+	FailIdx         int      `json:"fail_interface"` // >0: the (FailIdx-1)-th advertising/monitoring interface hits a fatal receive error FailMS after it came up; no signal is sent
+	FailMS          int      `json:"fail_after_ms"`
+	FailRecoverable bool     `json:"fail_recoverable"` // the receive error is ENETDOWN on the first connection only: the task must re-dial, and the signal is sent afterwards
+	LateIdx         int      `json:"late_interface"`   // >0: the (LateIdx-1)-th advertising/monitoring interface does not exist for its first LateN lookups
+	LateN           int      `json:"late_lookups"`
 }
 
 type e2eProbe struct {
@@ -85,6 +88,8 @@ type e2eRun struct {
 	ReadyNote                 bool   // READY=1 seen before the signal was sent
 	Hung                      string // non-empty: the process had to be killed (why)
 	FailIface                 string // the interface whose task fails by itself (fail mode)
+	RecoverIface              string // the interface whose first connection hits a recoverable receive error
+	LateIface                 string // the interface that appears only after some lookups
 	Ifaces                    []rIface
 	World                     system.VkWorld
 }
@@ -145,7 +150,7 @@ func e2eExecute(c e2eCase, cfg rConfig) (*e2eRun, error) {
 		missing[m] = true
 	}
 	w := system.VkWorld{Log: filepath.Join(dir, "events.jsonl"), Ifaces: map[string]system.VkIface{}}
-	tasks := 0
+	tasks, late := 0, 0
 	for i, ri := range cfg.Interfaces {
 		if missing[i] {
 			continue
@@ -159,7 +164,19 @@ func e2eExecute(c e2eCase, cfg rConfig) (*e2eRun, error) {
 			tasks++
 			if tasks == c.FailIdx {
 				vi.ReadErrAfterMS = c.FailMS
-				run.FailIface = ri.Name
+				vi.ReadErrRecoverable = c.FailRecoverable
+				if c.FailRecoverable {
+					run.RecoverIface = ri.Name
+				} else {
+					run.FailIface = ri.Name
+				}
+			}
+		}
+		if c.LateIdx > 0 && (ri.Advertise || ri.Monitor) {
+			late++
+			if late == c.LateIdx {
+				vi.MissingLookups = c.LateN
+				run.LateIface = ri.Name
 			}
 		}
 		w.Ifaces[ri.Name] = vi
@@ -391,6 +408,16 @@ func e2eExecute(c e2eCase, cfg rConfig) (*e2eRun, error) {
 			run.Hung = fmt.Sprintf("the task of %q failed with a fatal receive error, yet the process was still running %v later", run.FailIface, e2eBudget)
 		}
 		return run, nil
+	}
+	if run.RecoverIface != "" {
+		// let the fault and the recovery happen before the process is stopped
+		for time.Now().Before(deadline) {
+			b, _ := os.ReadFile(w.Log)
+			if bytes.Count(b, []byte(`"ev":"open","iface":"`+run.RecoverIface+`"`)) >= 2 {
+				break
+			}
+			time.Sleep(20 * time.Millisecond)
+		}
 	}
 	sig := map[string]syscall.Signal{"TERM": syscall.SIGTERM, "INT": syscall.SIGINT, "HUP": syscall.SIGHUP}[c.Sig]
 	run.SigAt = time.Now()
@@ -710,6 +737,9 @@ func oracleC20(c e2eCase, run *e2eRun) error {
 		want := 0
 		if (ri.Advertise || ri.Monitor) && !missing[i] {
 			want = 1
+			if ri.Name == run.RecoverIface {
+				want = 2 // re-established once after the recoverable receive error
+			}
 		}
 		// one task per advertising / monitoring interface, none for the others; a
 		// failing HTTP task may stop the server before a task has dialled
@@ -744,6 +774,109 @@ func oracleC20(c e2eCase, run *e2eRun) error {
 		}
 	case ready == 0 && len(c.Missing) == 0 && !c.PortBusy && !c.Early:
 		return verifkit.Violf("C20main/ready-not-announced", "every task was up (the debug API answered 200) but READY=1 was never sent\n%s", d())
+	}
+	return nil
+}
+
+// oracleC10: recovery policy seen from outside the process.
+func oracleC10(c e2eCase, run *e2eRun) error {
+	if c.PortBusy || c.Early || run.Hung != "" {
+		return nil
+	}
+	d := func() string { return e2eDesc(c, run) }
+	type conn struct {
+		iface           string
+		openAt, closeAt int64
+		closes          int
+	}
+	conns := map[int]*conn{}
+	var order []int
+	lookups := map[string][]system.VkEvent{}
+	for _, e := range run.Events {
+		switch e.Ev {
+		case "lookup":
+			lookups[e.Iface] = append(lookups[e.Iface], e)
+		case "open":
+			conns[e.Conn] = &conn{iface: e.Iface, openAt: e.TNS}
+			order = append(order, e.Conn)
+		case "close":
+			if cn := conns[e.Conn]; cn != nil {
+				cn.closes++
+				cn.closeAt = e.TNS
+			}
+		case "write", "write-after-close":
+			if cn := conns[e.Conn]; cn != nil && cn.closes > 0 {
+				return verifkit.Violf("C10main/old-connection-used", "connection %d of %q was written to after it had been closed\n%s", e.Conn, cn.iface, d())
+			}
+		}
+	}
+	per := map[string][]*conn{}
+	for _, id := range order {
+		per[conns[id].iface] = append(per[conns[id].iface], conns[id])
+	}
+	// back-off: attempt j+1 of one (re)initialisation follows attempt j by at least min(j*250 ms, 3 s)
+	// (the initial dial and the first retry may coincide); real time can only make the gaps longer
+	gapOK := func(ls []system.VkEvent) error {
+		for j := 1; j+1 < len(ls); j++ {
+			want := time.Duration(j) * 250 * time.Millisecond
+			if want > 3*time.Second {
+				want = 3 * time.Second
+			}
+			if got := time.Duration(ls[j+1].TNS - ls[j].TNS); got < want-2*time.Millisecond {
+				return verifkit.Violf("C10main/back-off-too-short", "%q: dial attempts %d and %d are %v apart, the policy waits %v\n%s", ls[j].Iface, j, j+1, got, want, d())
+			}
+		}
+		if len(ls) > 51 {
+			return verifkit.Violf("C10main/too-many-attempts", "%q: %d dial attempts\n%s", ls[0].Iface, len(ls), d())
+		}
+		return nil
+	}
+	if run.LateIface != "" {
+		ls := lookups[run.LateIface]
+		if len(ls) != c.LateN+1 {
+			return verifkit.Violf("C10main/late-interface", "%q does not exist for its first %d lookups: %d lookups seen, want %d\n%s", run.LateIface, c.LateN, len(ls), c.LateN+1, d())
+		}
+		if err := gapOK(ls); err != nil {
+			return err
+		}
+		if cs := per[run.LateIface]; len(cs) != 1 || cs[0].openAt < ls[len(ls)-1].TNS {
+			return verifkit.Violf("C10main/late-interface", "%q: %d connections, the first must follow the first successful lookup\n%s", run.LateIface, len(cs), d())
+		}
+	}
+	if run.RecoverIface != "" {
+		cs := per[run.RecoverIface]
+		if len(cs) != 2 {
+			return verifkit.Violf("C10main/not-re-established", "%q hit a recoverable receive error on its first connection: %d connections opened, want 2\n%s", run.RecoverIface, len(cs), d())
+		}
+		if cs[0].closes != 1 || cs[0].closeAt > cs[1].openAt {
+			return verifkit.Violf("C10main/half-alive", "%q: the failed connection was closed %d times, and not before its successor was opened\n%s", run.RecoverIface, cs[0].closes, d())
+		}
+		// the lookups of the recovery: those after the first connection was closed
+		var ls []system.VkEvent
+		for _, l := range lookups[run.RecoverIface] {
+			if l.TNS >= cs[0].closeAt {
+				ls = append(ls, l)
+			}
+		}
+		// (the re-initialisation has no separate initial dial: its first attempt is attempt 1 of the loop)
+		if err := gapOK(append([]system.VkEvent{{Iface: run.RecoverIface}}, ls...)); err != nil {
+			return err
+		}
+	}
+	for iface, cs := range per {
+		want := 1
+		if iface == run.RecoverIface {
+			want = 2
+		}
+		if len(cs) != want {
+			return verifkit.Violf("C10main/unexpected-re-dial", "%q: %d connections opened, want %d (a fault on another interface must not disturb it; a fatal fault is not retried)\n%s", iface, len(cs), want, d())
+		}
+	}
+	if run.FailIface != "" && (run.ExitCode != 1 || !strings.Contains(run.Stderr, "failed to run")) {
+		return verifkit.Violf("C10main/fatal-fault-not-reported", "%q hit a permission-class receive error: exit code %d\n%s", run.FailIface, run.ExitCode, d())
+	}
+	if run.FailIface == "" && (run.ExitCode != 0 || run.ExitSignal != "") {
+		return verifkit.Violf("C10main/recoverable-fault-fatal", "exit code %d %s although no fatal fault was injected\n%s", run.ExitCode, run.ExitSignal, d())
 	}
 	return nil
 }
@@ -936,7 +1069,11 @@ func e2eRAOracle(c e2eCase, run *e2eRun, pfx string, full bool) error {
 			}
 			continue
 		}
-		if want := []bool{false, i%2 == 0}; fmt.Sprint(sets) != fmt.Sprint(want) {
+		want := []bool{false, i%2 == 0}
+		if ri.Name == run.RecoverIface {
+			want = []bool{false, i%2 == 0, false, i%2 == 0} // restored when the first connection is given up, disabled again for the second
+		}
+		if fmt.Sprint(sets) != fmt.Sprint(want) {
 			return verifkit.Violf(pfx+"/autoconf-not-restored", "interface %q: autoconf writes %v, want %v (disable, then restore the initial value)\n%s", ri.Name, sets, want, d())
 		}
 	}
@@ -1094,7 +1231,9 @@ func e2eMetrics(c e2eCase, run *e2eRun, pfx string) error {
 	return nil
 }
 
-func e2eGen(forC16 bool) func(t *rapid.T) e2eCase {
+func e2eGen(forC16 bool) func(t *rapid.T) e2eCase { return e2eGenMode(forC16, false) }
+
+func e2eGenMode(forC16, forC10 bool) func(t *rapid.T) e2eCase {
 	return func(t *rapid.T) e2eCase {
 		g := &vg{t: t}
 		c := e2eCase{Doc: g.genDoc(rapid.IntRange(0, 2).Draw(t, "all-advertise") == 0, 0), State: genSysState(t),
@@ -1129,7 +1268,21 @@ func e2eGen(forC16 bool) func(t *rapid.T) e2eCase {
 		}
 		// (PortBusy stays in the case type for hand-written replays only: the HTTP task
 		// retries a busy address 40 times, it is not a quick way to make a task fail)
-		switch rapid.IntRange(0, 7).Draw(t, "special") {
+		special := rapid.IntRange(0, 7).Draw(t, "special")
+		if forC10 {
+			special = rapid.SampledFrom([]int{3, 4, 4, 5, 5, 6}).Draw(t, "c10special")
+		}
+		switch special {
+		case 4:
+			// a recoverable receive error on the first connection of one interface: the task re-dials
+			c.FailIdx = rapid.IntRange(1, 3).Draw(t, "recidx")
+			c.FailMS = rapid.SampledFrom([]int{100, 400}).Draw(t, "recms")
+			c.FailRecoverable = true
+			c.Solicit = false // (the scripted solicitations would be delivered again on the second connection)
+		case 5:
+			// an interface that appears only at the 2nd..4th dial attempt
+			c.LateIdx = rapid.IntRange(1, 3).Draw(t, "lateidx")
+			c.LateN = rapid.IntRange(1, 3).Draw(t, "laten")
 		case 3:
 			// a task fails by itself (fatal receive error) some time after everything came up
 			c.FailIdx = rapid.IntRange(1, 3).Draw(t, "failidx")
@@ -1186,8 +1339,14 @@ func e2eProp(k *verifkit.Kit, id string, oracles ...e2eOracle) func(c e2eCase) e
 		if c.Early {
 			cls = append(cls, "signal-before-serve")
 		}
-		if c.FailIdx > 0 {
+		if c.FailIdx > 0 && !c.FailRecoverable {
 			cls = append(cls, "task-fails-by-itself")
+		}
+		if c.FailIdx > 0 && c.FailRecoverable {
+			cls = append(cls, "recoverable-receive-error")
+		}
+		if c.LateIdx > 0 {
+			cls = append(cls, "interface-appears-late")
 		}
 		k.Record(c, adv >= 1, cls...)
 		once := func() error {
@@ -1243,6 +1402,14 @@ func e2eTest(t *testing.T, id string, n func(k *verifkit.Kit) int, forC16 bool, 
 	prop := e2eProp(k, id, oracles...)
 	k.Regress(t, func(sub string, raw json.RawMessage) error { return verifkit.Decode(raw, prop) })
 	verifkit.Rapid(k, t, "whole-process", n(k), e2eGen(forC16), prop)
+}
+
+func TestVerif_C10main(t *testing.T) {
+	k := verifkit.Start(t, "C10")
+	k.WholeProcess = true
+	prop := e2eProp(k, "C10", oracleC10, oracleC20)
+	k.Regress(t, func(sub string, raw json.RawMessage) error { return verifkit.Decode(raw, prop) })
+	verifkit.Rapid(k, t, "whole-process", k.N(24, 1200), e2eGenMode(false, true), prop)
 }
 
 func TestVerif_C20main(t *testing.T) {
